@@ -52,6 +52,20 @@ func c10Call(r *core.Run, entry, input string, f func() error) {
 	}
 }
 
+// c10CountingGetter passes requests on and counts them; past the limit it fails every request (see its use).
+type c10CountingGetter struct {
+	inner    *world.PCS
+	n, limit int
+}
+
+func (g *c10CountingGetter) Get(u string) (map[string][]string, []byte, error) {
+	g.n++
+	if g.n > g.limit {
+		return nil, nil, fmt.Errorf("simulated PCS: cut off after %d requests", g.limit)
+	}
+	return g.inner.Get(u)
+}
+
 func c10RawEntries(r *core.Run, w *world.World, input string, raw []byte) {
 	c10Call(r, "abi.QuoteToProto", input, func() error { _, err := abi.QuoteToProto(raw); return err })
 	c10Call(r, "verify.RawTdxQuote", input, func() error { return verify.RawTdxQuote(raw, worldOpts(w, O0)) })
@@ -560,11 +574,18 @@ func c10Run(r *core.Run) {
 					})
 					// the same response behind the library's own retrying getter (what a caller who sets no getter
 					// gets): whatever a wrapped getter that does not fail answers, the call returns
+					cg := &c10CountingGetter{inner: w.PCS, limit: 2000}
 					c10Call(r, "verify.RawTdxQuote+collateral+RetryHTTPSGetter", name, func() error {
 						o := worldOpts(w, O2)
-						o.Getter = &trust.RetryHTTPSGetter{Timeout: 200 * time.Millisecond, MaxRetryDelay: 20 * time.Millisecond, Getter: w.PCS}
+						o.Getter = &trust.RetryHTTPSGetter{Timeout: 200 * time.Millisecond, MaxRetryDelay: 20 * time.Millisecond, Getter: cg}
 						return verify.RawTdxQuote(raw, o)
 					})
+					if cg.n > cg.limit {
+						// the service answered every request at once and successfully, and the call still had not returned
+						// after thousands of answers: left alone it spins for ever (the simulation cut it off by failing
+						// the wrapped getter from then on, which lets the retry timeout end the call)
+						r.Violate("C10:hang:verify.RawTdxQuote+collateral+RetryHTTPSGetter", "verify.RawTdxQuote behind the retrying getter had not returned after %d successful answers of the wrapped getter on %s", cg.limit, name)
+					}
 					set(route, orig[route])
 					r.State("pcs %s %s %s", route, resp.name, hd.name)
 					r.EndItem()
